@@ -2,7 +2,7 @@ import OV.Model.C07Apply
 import OV.Drivers.Loop
 /-! Line-protocol driver for C07.
 
-  `C07 <apply|rewrite> <fuel> M <model> R <nRules> <rule>*`  →  `OK <count> <model>` | `ERR <kind>`
+  `C07 <apply|rewrite|applyc|rewritec> <fuel> M <model> R <nRules> <rule>*` (`…c`: `commute=True`)  →  `OK <count> <model>` | `ERR <kind>`
   `C07 wf M <model>` → `1`/`0` (one-level `wfGraph` of the main graph, all bodies, all functions, and `caps` adequate)
 
   model  := <nOps> (dom ver)* <graph> <nFuncs> (<dom> <name> <overload> <nOps> (dom ver)* <graph>)*
@@ -195,7 +195,9 @@ def handle (args : List String) : String :=
   | mode :: fuelS :: rest =>
     match fuelS.toNat?, ((do let m ← pModel; expect "R"; let rs ← counted pRule; pure (m, rs)) : P _).run rest with
     | some fuel, some ((m, rs), []) =>
-      let res := if mode == "rewrite" then rewriteModel rs fuel m else applyToModel rs fuel m
+      -- `applyc` / `rewritec`: the rule set is built with `commute=True`
+      let rs := if mode == "applyc" || mode == "rewritec" then rs.flatMap commuteRule else rs
+      let res := if mode == "rewrite" || mode == "rewritec" then rewriteModel rs fuel m else applyToModel rs fuel m
       match res with
       | .ok (c, m') => " ".intercalate (["OK", toString c] ++ sModel m')
       | .error e => "ERR " ++ sErr e
